@@ -344,7 +344,13 @@ func (g *Gen) HistoryIO() []E {
 	n := g.r.Intn(6)
 	docs := make([]interface{}, 0)
 	for i := 0; i < n && i < len(g.ids); i++ {
-		docs = append(docs, g.jsonDoc(AStr(g.ids[i])))
+		d := g.jsonDoc(AStr(g.ids[i]))
+		if g.chance(0.3) { // documents that expire are documents too: the dump has to bring them back
+			// (in a zone whose offset is a whole number of minutes: RFC 3339 text cannot say more, so the text of
+			// any other time already denotes another instant)
+			d = ObjSet(d, "_expiresAt", ATime(g.r.Intn(len(g.U.times)), g.r.Intn(4)))
+		}
+		docs = append(docs, d)
 	}
 	evs = append(evs, E{"op": "Insert", "c": src, "docs": docs})
 	evs = append(evs, E{"op": "Insert", "c": other, "docs": []interface{}{g.jsonDoc(AStr(g.ids[0]))}})
@@ -366,6 +372,9 @@ func (g *Gen) HistoryIO() []E {
 			evs = append(evs, E{"op": "CreateByQuery", "name": other, "c": g.pick([]string{src, "never-created"}), "q": []interface{}{}, "audit": true})
 		case 10: // ... from a missing source
 			evs = append(evs, E{"op": "CreateByQuery", "name": "byq2", "c": "never-created", "q": []interface{}{}, "audit": true})
+			// ... from itself: a query on a collection that does not exist, and one on a collection that does
+			evs = append(evs, E{"op": "CreateByQuery", "name": "selfq", "c": "selfq", "q": []interface{}{}, "audit": true},
+				E{"op": "ListCollections"}, E{"op": "CreateByQuery", "name": src, "c": src, "q": []interface{}{}, "audit": true})
 		case 0:
 			evs = append(evs, E{"op": "Import", "c": names[0], "path": "exp.json"})
 			evs = append(evs, E{"op": "FindAll", "c": names[0], "q": []interface{}{}})
